@@ -1,5 +1,7 @@
 package bexpr
 
+import "encoding/json"
+
 // C13 — evaluation is pure and history-independent; Expression() returns the source.
 
 // H_C13_history: after any two earlier calls (mixed data and outcomes) the
@@ -46,7 +48,13 @@ func H_C13_history() {
 	var last interface{}
 	for i := 0; i < k; i++ {
 		var d interface{}
-		switch vChoose(4) {
+		nv := 4
+		if i == 0 {
+			nv = 5 // the UseNumber document as first datum only (keeps the product of histories small)
+		}
+		switch vChoose(nv) {
+		case 4: // a document decoded with UseNumber: json.Number leaves inside lists and maps
+			d = map[string]interface{}{"s": "a", "n": json.Number("1"), "f": json.Number("1.5"), "l": []interface{}{json.Number("1"), "x", json.Number("x")}, "m": map[string]interface{}{"a": json.Number("2")}, "ts": []interface{}{json.Number("7")}}
 		case 3: // same keys, other kinds: a cache keyed by the expression alone would go stale
 			d = map[string]interface{}{"s": []byte("a"), "n": "1", "f": vFloat32(), "l": []string{"x", "1"}, "m": map[string]interface{}{"a": "1"}, "ts": []interface{}{"q"}}
 		case 0:
